@@ -25,6 +25,8 @@ def all_cases(tier):
                 for (m, sd) in [(0.0, 1.0), (1.5, 0.25)]:
                     out.append({"init": "normal_", "shape": list(s), "dtype": dt, "rg": rg, "args": {"mean": m, "std": sd}})
                 out.append({"init": "constant_", "shape": list(s), "dtype": dt, "rg": rg, "args": {"val": -2.5}})
+                for val in (0.1, -1.0 / 3.0, 16777217):      # not representable in float32: a float64 tensor must hold them to double precision
+                    out.append({"init": "constant_", "shape": list(s), "dtype": dt, "rg": rg, "args": {"val": val}})
                 out.append({"init": "ones_", "shape": list(s), "dtype": dt, "rg": rg, "args": {}})
                 out.append({"init": "zeros_", "shape": list(s), "dtype": dt, "rg": rg, "args": {}})
                 if len(s) < 2 or (light and tier == "quick" and len(s) > 3):
@@ -147,7 +149,9 @@ def judge(case):
                 if src.n_z != n: v("draws", f"{src.n_z} normal draws for {n} elements")
         else:
             outs, src = run()
-            if not np.allclose(outs[0], exp[1], rtol=tol, atol=tol): v("value", f"filled with {outs[0].ravel()[0]}, expected {exp[1]}")
+            # a constant is stored exactly: the value rounded ONCE to the tensor's dtype (0.1 in a float64 tensor is float64(0.1))
+            want_c = np.dtype(case["dtype"]).type(exp[1])
+            if not np.all(np.asarray(outs[0]) == want_c): v("value", f"filled with {outs[0].ravel()[0]!r}, expected {want_c!r} (the value rounded once to {case['dtype']})")
             if src.n_u or src.n_z: v("draws", "a constant filler consumed random draws")
     except harness.HarnessError:
         raise
